@@ -109,7 +109,7 @@ def finish(res, tier, t0, replay_mode=False):
         else:
             status = 1
             h = hashlib.sha1(key.encode()).hexdigest()[:10]
-            path = os.path.join(VERIF, "replays", "%s-%s.json" % (pid, h))
+            path = os.path.join(os.environ.get("VERIF_EVIDENCE_DIR") or os.path.join(VERIF, "replays"), "%s-%s.json" % (pid, h))
             if not replay_mode:
                 os.makedirs(os.path.dirname(path), exist_ok=True)
                 with open(path, "w") as f:
@@ -132,11 +132,12 @@ def finish(res, tier, t0, replay_mode=False):
               "violations": sum(len(v) for k, v in by_key.items() if k not in known),
               "known_findings_seen": sorted(k for k in by_key if k in known),
               "repo": REPO}
-        os.makedirs(os.path.join(VERIF, "evidence"), exist_ok=True)
-        tmp = os.path.join(VERIF, "evidence", ".%s.json.tmp" % pid)
+        evd = os.environ.get("VERIF_EVIDENCE_DIR") or os.path.join(VERIF, "evidence")
+        os.makedirs(evd, exist_ok=True)
+        tmp = os.path.join(evd, ".%s.json.tmp" % pid)
         with open(tmp, "w") as f:
             json.dump(ev, f, indent=1)
-        os.replace(tmp, os.path.join(VERIF, "evidence", "%s.json" % pid))
+        os.replace(tmp, os.path.join(evd, "%s.json" % pid))
     c = res.coverage
     print("%s %s tier=%s states=%s transitions=%s evaluations=%s distinct_nontrivial=%s exhaustive=%s wall=%.1fs" % (
         pid, "OK" if status == 0 else "FAIL", tier, c.get("states"), c.get("transitions"),
